@@ -44,6 +44,7 @@ type FilterSpec struct {
 	Exclusive  bool      `json:"excl,omitempty"`
 	Rels       []RelSpec `json:"rels,omitempty"`  // fixed relation targets
 	Chain      bool      `json:"chain,omitempty"` // give the fixed targets in chained Relations() calls, one each
+	Order      int       `json:"order,omitempty"` // order and splitting of the builder calls (With / Without / Exclusive / Relations)
 	Registered bool      `json:"-"`
 	Queried    bool      `json:"-"`
 	Emptied    bool      `json:"-"` // a matching relation table was emptied while the filter was registered
@@ -74,6 +75,7 @@ type ObsSpec struct {
 	Without    []int `json:"without,omitempty"`
 	Exclusive  bool  `json:"excl,omitempty"`
 	UnregP1    int   `json:"unreg,omitempty"` // 1 + index of the observer to unregister from inside the callback (0 = none)
+	Order      int   `json:"order,omitempty"` // order and splitting of the builder calls (For / With / Without / Exclusive)
 	Registered bool  `json:"-"`
 	Dead       bool  `json:"-"` // removed by Reset
 }
